@@ -59,7 +59,7 @@ RECD = "schemathesis.engine.recorder:"
 FailureInfo = Obj(RECD + "CheckFailureInfo", code_sample=Str, failure=Opq("FailureRef"))
 CheckN = Obj(RECD + "CheckNode", name=Const("check"), status=EnumOf("schemathesis.engine:Status", ["FAILURE"]), failure_info=OneOf(NoneT, FailureInfo))
 CaseN = Obj(RECD + "CaseNode", value=Obj("spec:ReportedCase", operation=Obj("spec:ReportedOp", label=Str)), parent_id=NoneT, transition=NoneT)
-RecorderS = Obj(RECD + "ScenarioRecorder", label=Const("GET /x"), cases=DictOf(optional={"c1": CaseN, "c2": CaseN}), checks=DictOf(optional={"c1": ListOf(CheckN, [0, 1]), "c2": ListOf(CheckN, [1])}),
+RecorderS = Obj(RECD + "ScenarioRecorder", label=Const("GET /x"), cases=DictOf(optional={"c1": CaseN, "c2": CaseN}), checks=DictOf(optional={"c1": ListOf(CheckN, [0, 1, 2], widen=False), "c2": ListOf(CheckN, [1], widen=False)}),
                 interactions=DictOf(required={"c1": Obj(RECD + "Interaction", response=Opq("ResponseRef")), "c2": Obj(RECD + "Interaction", response=Opq("ResponseRef"))}))
 Stored = Obj(CTX_ + "GroupedFailures", case_id=Str, code_sample=Str, failures=ListOf(Opq("FailureRef"), [1]), response=Opq("ResponseRef"))
 StatisticS = Obj(CTX_ + "Statistic", failures=DictOf(optional={"GET /x": DictOf(required={"c0": Stored}), "GET /y": DictOf(required={"c9": Stored})}),
@@ -80,7 +80,7 @@ R.contract(
         "earlier_failures_of_the_label_are_kept": "implies('GET /x' in old(dict(self.failures)), 'GET /x' in self.failures and 'c0' in self.failures['GET /x'] and self.failures['GET /x']['c0'] is old(dict(self.failures))['GET /x']['c0'])",
         "other_labels_untouched": "implies('GET /y' in old(dict(self.failures)), self.failures['GET /y'] is old(dict(self.failures))['GET /y'])",
     },
-    bounded_note="scenarios with up to 2 cases and one check result each",
+    bounded_note="scenarios with up to 2 cases, up to two check results on the first and one on the second",
     max_paths=20000,
 )
 R.contracts[CTX_ + "Statistic.on_scenario_finished"].effects = {"recorded": "ghost('recorded') + 1"}
